@@ -5,6 +5,7 @@ From Coq Require Import List Bool String ZArith.
 Import ListNotations.
 From JV Require Import Model.SbxAttr Model.SbxAccess Model.SbxGen Proofs.SbxAccessProofs Proofs.SbxGenProofs.
 From JV Require Model.SbxCall Proofs.SbxCallProofs.
+From JV Require Import Model.SbxFold Proofs.SbxFoldProofs.
 Open Scope string_scope.
 
 (* The value of an attribute (or the sandboxed wrapper of a bound str.format / format_map found
@@ -103,6 +104,27 @@ Proof.
 Qed.
 Print Assumptions C17_host_format_methods_sandboxed.
 
+(* Compile-time constant folding (nodes.Getattr.as_const / Getitem.as_const) of attribute and
+   subscript chains rooted at a template LITERAL goes through the same two sandbox functions:
+   whatever is folded into the generated code is what the run-time code would have produced, and
+   it is an undefined or reachable from the literal by legitimate hops only — the value of an
+   underscore / internal attribute of a literal ('abc'.__doc__, (1).__class__.__name__) is never
+   folded. *)
+Theorem C17_constant_folding_sandboxed : forall tb e v, as_const tb e = Some v ->
+  run_chain tb e = RtVal v /\ (v = VUndef \/ v = VUnsafe \/ reach tb (root e) v).
+Proof. intros tb e v H. split; [exact (fold_eq_runtime tb e v H)|exact (fold_reach tb e v H)]. Qed.
+Print Assumptions C17_constant_folding_sandboxed.
+
+Theorem C17_folded_attribute_is_safe : forall tb e a o v,
+  as_const tb e = Some o -> as_const tb (CAttr e a) = Some v ->
+  v = VUndef \/ v = VUnsafe \/ py_getitem o (KStr a) = Some v \/
+  (starts_underscore a = false /\ is_internal_attribute tb (kind_of o) a = false).
+Proof.
+  intros tb e a o v Ho H. destruct (fold_attr_safe tb e a o v Ho H) as [Hu|[Hu|[Hi|[Hs _]]]]; auto.
+  right. right. right. exact (safe_means_public _ _ _ Hs).
+Qed.
+Print Assumptions C17_folded_attribute_is_safe.
+
 (* ------------------------------------------------------------------ non-vacuity *)
 Definition ex_tables : tables := mkTables [] [] ["gi_frame"; "gi_code"] ["cr_frame"; "cr_code"] ["ag_code"; "ag_frame"].
 Definition ex_secret : value := VData 42.
@@ -123,6 +145,9 @@ Example C17_example :
   get_field ex_tables [ex_obj] [] (KInt 0) [SAttr "_secret"; SAttr "x"] = RRaise ESecurityError /\
   sandbox_getattr ex_tables (VStr "{0._secret}") "format" = RFormat (VWrap "{0._secret}" false) /\
   sandbox_getattr ex_tables (VObj KType [("mro", VData 7)] []) "mro" = RUnsafe /\
+  as_const ex_tables (CAttr (CLit (VObj KOther [("__doc__", VData 5); ("real", VData 6)] [])) "__doc__") = Some VUnsafe /\
+  as_const ex_tables (CAttr (CAttr (CLit (VObj KOther [("__doc__", VData 5); ("real", VData 6)] [])) "__doc__") "x") = None /\
+  as_const ex_tables (CAttr (CLit (VObj KOther [("__doc__", VData 5); ("real", VData 6)] [])) "real") = Some (VData 6) /\
   show (gen (mkMode true false) (EGetattr (EGetitem (EName "x") (EConst "'a'")) "_secret"))
     = "GA(GI(V(x),C('a')),_secret)".
 Proof. vm_compute. repeat split; reflexivity. Qed.
